@@ -12,7 +12,7 @@ open Generated.GoGConfigReduce GConfig GoLoop GoAny GoReduce
 def dimOf (d : Dim) : Dimension where
   parseGeneric := fun k => match d.parse k with
     | some i => (i, none)
-    | none => (0, some "not a value of the enum")
+    | none => (0, some ())
   get := d.sel
 
 /-- the model's answer as the `(any, error)` pair of `reduceAny` -/
@@ -393,7 +393,8 @@ theorem go_reduceAny_eq (dims : List Dim) (hE : ∀ d ∈ dims, d.parse "" = non
         simp only [NK] at hnk
         rw [Generated.GoGConfigReduce.reduceAny]
         simp only []
-        obtain ⟨s, hs⟩ := forIn_listUpdate (GConfig.reduceAny dims) (Y.null, reduce_err1) Y.null
+        obtain ⟨s, hs⟩ := forIn_listUpdate (fun v i => (v, i)) (GConfig.reduceAny dims) (Y.null, reduce_err1)
+          (fun el v i => (v.set i Y.null, i))
           (fun el __s => do
             let p3 ← Generated.GoGConfigReduce.reduceAny f el (List.map dimOf dims) 0
             let v ← Go.listSet __s.snd.fst __s.snd.snd p3.fst
@@ -438,7 +439,8 @@ theorem go_reduceAny_eq (dims : List Dim) (hE : ∀ d ∈ dims, d.parse "" = non
           | broken => simp [selOf, redOut, ofOptE]
           | notReducible =>
             simp only [selOf]
-            obtain ⟨s, hs⟩ := forIn_amapUpdate (GConfig.reduceAny dims) (Y.null, reduce_err1) Y.null
+            obtain ⟨s, hs⟩ := forIn_amapUpdate (fun v => v) (GConfig.reduceAny dims) (Y.null, reduce_err1)
+              (fun kv v => amapSet v kv.1 Y.null)
               (fun x __s => do
                 let p2 ← Generated.GoGConfigReduce.reduceAny (f' + 1) x.snd (List.map dimOf dims) 0
                 if (p2.snd != none) = true then
@@ -454,5 +456,395 @@ theorem go_reduceAny_eq (dims : List Dim) (hE : ∀ d ∈ dims, d.parse "" = non
             simp only [List.nil_append] at hs
             rw [hs, reduceKVs_eq_map]
             cases mapKVs (GConfig.reduceAny dims) kvs <;> simp [ofOptE]
+
+/-! ## `parseTemplatedElements` -/
+
+/-- the string case of `parseTemplatedElements`: the first template that fails (`none`) or matches
+decides; a string no template matches is kept -/
+def tmplStr : List (String → String × Bool × Err) → String → Option String
+  | [], s => some s
+  | t :: ts, s => if (t s).2.2 != none then none else if (t s).2.1 then some (t s).1 else tmplStr ts s
+
+mutual
+  /-- hand-written model of `parseTemplatedElements` on the document type of C03: every string
+  value, at any depth below maps and lists, goes through the templates; the first failure aborts -/
+  def tmplY (ts : List (String → String × Bool × Err)) : Y → Option Y
+    | .str s => (tmplStr ts s).map Y.str
+    | .list xs => (tmplList ts xs).map Y.list
+    | .map kvs => (tmplKVs ts kvs).map Y.map
+    | y => some y
+  def tmplList (ts : List (String → String × Bool × Err)) : List Y → Option (List Y)
+    | [] => some []
+    | x :: xs =>
+      match tmplY ts x, tmplList ts xs with
+      | some x', some xs' => some (x' :: xs')
+      | _, _ => none
+  def tmplKVs (ts : List (String → String × Bool × Err)) : List (String × Y) → Option (List (String × Y))
+    | [] => some []
+    | (k, v) :: rest =>
+      match tmplY ts v, tmplKVs ts rest with
+      | some v', some rest' => some ((k, v') :: rest')
+      | _, _ => none
+end
+
+theorem tmplKVs_eq_map (ts : List (String → String × Bool × Err)) : ∀ (kvs : List (String × Y)),
+    tmplKVs ts kvs = mapKVs (tmplY ts) kvs
+  | [] => by simp [tmplKVs, mapKVs]
+  | (k, v) :: rest => by
+    rw [tmplKVs, mapKVs, tmplKVs_eq_map ts rest]
+    cases tmplY ts v <;> cases mapKVs (tmplY ts) rest <;> rfl
+
+theorem tmplList_eq_map (ts : List (String → String × Bool × Err)) : ∀ (xs : List Y),
+    tmplList ts xs = mapList (tmplY ts) xs
+  | [] => by simp [tmplList, mapList]
+  | x :: rest => by
+    rw [tmplList, mapList, tmplList_eq_map ts rest]
+    cases tmplY ts x <;> cases mapList (tmplY ts) rest <;> rfl
+
+theorem err_ne_none (e : Err) (h : (e != none) = true) : e = some () := by
+  cases e with
+  | none => simp at h
+  | some u => rfl
+
+/-- what the template loop leaves with on template `t` -/
+def tmplSel (s : String) (t : String → String × Bool × Err) : Option (Y × Err) :=
+  if (t s).2.2 != none then some (Y.null, (t s).2.2)
+  else if (t s).2.1 then some (Y.str (t s).1, none) else none
+
+theorem tmplStr_findSome (s : String) : ∀ (ts : List (String → String × Bool × Err)),
+    (match ts.findSome? (tmplSel s) with
+      | some r => r
+      | none => (Y.str s, none)) = ofOptE ((tmplStr ts s).map Y.str)
+  | [] => by simp [tmplStr, ofOptE]
+  | t :: ts => by
+    have ih := tmplStr_findSome s ts
+    simp only [List.findSome?_cons, tmplStr, tmplSel]
+    by_cases h1 : ((t s).2.2 != none) = true
+    · simp [h1, ofOptE, err_ne_none _ h1, reduce_err1]
+    · by_cases h2 : (t s).2.1 = true
+      · simp [h1, h2, ofOptE]
+      · simp only [h1, h2, if_false, Bool.false_eq_true]
+        exact ih
+
+/-- **tie A**: the translated `parseTemplatedElements` (at `T = any`) is the pointwise lift `tmplY`
+of the templates over map values and list items, for every document with distinct keys, every list
+of templates and every fuel above `need y` -/
+theorem go_parseTemplated_eq (env : Env) : ∀ (fuel : Nat) (y : Y), need y ≤ fuel → NK y = true →
+    parseTemplatedElements env fuel y = pure (ofOptE (tmplY env.templates y)) := by
+  intro fuel
+  induction fuel with
+  | zero => intro y hn; cases y <;> simp [need] at hn
+  | succ f IH =>
+    intro y hn hnk
+    cases y with
+    | null => simp [parseTemplatedElements, tmplY, ofOptE]
+    | int n => simp [parseTemplatedElements, tmplY, ofOptE]
+    | bool b => simp [parseTemplatedElements, tmplY, ofOptE]
+    | str s =>
+      rw [parseTemplatedElements]
+      simp only []
+      rw [forIn_findSome _ (tmplSel s) _ (by
+        intro t _
+        unfold tmplSel
+        by_cases h1 : ((t s).2.2 != none) = true
+        · simp [h1]
+        · by_cases h2 : (t s).2.1 = true
+          · simp [h1, h2]
+          · simp [h1, h2])]
+      have := tmplStr_findSome s env.templates
+      simp only [pure_bind, tmplY]
+      rw [← this]
+      cases List.findSome? (tmplSel s) env.templates <;> rfl
+    | list xs =>
+      simp only [need] at hn
+      simp only [NK] at hnk
+      rw [parseTemplatedElements]
+      simp only []
+      obtain ⟨s, hs⟩ := forIn_listUpdate (fun v i => ((none : Err), v, i)) (tmplY env.templates) (Y.null, reduce_err1)
+        (fun el v i => (reduce_err1, v.set i Y.null, i))
+        (fun el __s => do
+          let p3 ← parseTemplatedElements env f el
+          let v ← Go.listSet __s.snd.snd.fst __s.snd.snd.snd p3.fst
+          if (p3.snd != none) = true then pure (ForInStep.done (some (Y.null, p3.snd), p3.snd, v, __s.snd.snd.snd))
+            else pure (ForInStep.yield (none, p3.snd, v, __s.snd.snd.snd + 1))) xs
+        (by
+          intro el v i hm hi
+          have := IH el (by have := need_mem_list xs el hm; omega) (nk_mem_list xs el hnk hm)
+          simp only [this, pure_bind]
+          cases tmplY env.templates el with
+          | some x => simp [ofOptE, listSet_lt _ _ _ hi]
+          | none => simp [ofOptE, listSet_lt _ _ _ hi, reduce_err1]) []
+      simp only [List.nil_append, List.length_nil] at hs
+      rw [hs, tmplY, tmplList_eq_map]
+      cases mapList (tmplY env.templates) xs <;> simp [ofOptE]
+    | map kvs =>
+      simp only [need] at hn
+      simp only [NK, Bool.and_eq_true] at hnk
+      have hnd : (kvs.map (·.1)).Nodup := keysDistinct_nodup _ hnk.1
+      rw [parseTemplatedElements]
+      simp only []
+      obtain ⟨s, hs⟩ := forIn_amapUpdate (fun v => ((none : Err), v)) (tmplY env.templates) (Y.null, reduce_err1)
+        (fun kv v => (reduce_err1, amapSet v kv.1 Y.null))
+        (fun x __s => do
+          let p2 ← parseTemplatedElements env f x.snd
+          if (p2.snd != none) = true then
+              pure (ForInStep.done (some (Y.null, p2.snd), p2.snd, amapSet __s.snd.snd x.fst p2.fst))
+            else pure (ForInStep.yield (none, p2.snd, amapSet __s.snd.snd x.fst p2.fst))) kvs
+        (by
+          intro kv v hm
+          have := IH kv.2 (by have := need_mem_kvs kvs kv.1 kv.2 hm; omega) (nk_mem_kvs kvs kv.1 kv.2 hnk.2 hm)
+          simp only [this, pure_bind]
+          cases tmplY env.templates kv.2 with
+          | some x => simp [ofOptE]
+          | none => simp [ofOptE, reduce_err1]) [] (by simpa using hnd)
+      simp only [List.nil_append] at hs
+      rw [hs, tmplY, tmplKVs_eq_map]
+      cases mapKVs (tmplY env.templates) kvs <;> simp [ofOptE]
+
+/-! ## the pipeline of `Builder.FromBytes` after `yaml.Unmarshal` -/
+
+mutual
+  /-- reduction does not deepen a document and keeps the keys of its maps distinct -/
+  theorem reduce_pres (dims : List Dim) : ∀ (y r : Y), GConfig.reduceAny dims y = some r → NK y = true →
+      need r ≤ need y ∧ NK r = true
+    | .map kvs, r, h, hnk => by
+      simp only [NK, Bool.and_eq_true] at hnk
+      rw [GConfig.reduceAny] at h
+      cases hc : classify dims kvs with
+      | notReducible =>
+        simp only [hc] at h
+        cases hr : GConfig.reduceKVs dims kvs with
+        | none => simp [hr] at h
+        | some kvs' =>
+          simp [hr] at h; subst h
+          have := reduceKVs_pres dims kvs kvs' hr hnk.2
+          simp only [need, NK, this.2.2, hnk.1, this.2.1, Bool.and_self, and_true]
+          omega
+      | follow k =>
+        simp only [hc] at h
+        have := reduceAt_pres dims kvs k r h hnk.2
+        simp only [need]; exact ⟨by omega, this.2⟩
+      | followDefault =>
+        simp only [hc] at h
+        have := reduceAt_pres dims kvs _ r h hnk.2
+        simp only [need]; exact ⟨by omega, this.2⟩
+      | broken => simp [hc] at h
+    | .list xs, r, h, hnk => by
+      simp only [NK] at hnk
+      rw [GConfig.reduceAny] at h
+      cases hr : GConfig.reduceList dims xs with
+      | none => simp [hr] at h
+      | some xs' =>
+        simp [hr] at h; subst h
+        have := reduceList_pres dims xs xs' hr hnk
+        simp only [need, NK, this.2, and_true]; omega
+    | .null, r, h, _ => by simp [GConfig.reduceAny] at h; subst h; simp [NK]
+    | .str _, r, h, _ => by simp [GConfig.reduceAny] at h; subst h; simp [NK]
+    | .int _, r, h, _ => by simp [GConfig.reduceAny] at h; subst h; simp [NK]
+    | .bool _, r, h, _ => by simp [GConfig.reduceAny] at h; subst h; simp [NK]
+  theorem reduceList_pres (dims : List Dim) : ∀ (xs r : List Y), GConfig.reduceList dims xs = some r →
+      nkList xs = true → needList r ≤ needList xs ∧ nkList r = true
+    | [], r, h, _ => by simp [GConfig.reduceList] at h; subst h; simp [needList, nkList]
+    | x :: xs, r, h, hnk => by
+      simp only [nkList, Bool.and_eq_true] at hnk
+      rw [GConfig.reduceList] at h
+      cases hx : GConfig.reduceAny dims x with
+      | none => simp [hx] at h
+      | some x' =>
+        cases hr : GConfig.reduceList dims xs with
+        | none => simp [hx, hr] at h
+        | some xs' =>
+          simp [hx, hr] at h; subst h
+          have h1 := reduce_pres dims x x' hx hnk.1
+          have h2 := reduceList_pres dims xs xs' hr hnk.2
+          simp only [needList, nkList, h1.2, h2.2, Bool.and_self, and_true]; omega
+  theorem reduceKVs_pres (dims : List Dim) : ∀ (kvs r : List (String × Y)), GConfig.reduceKVs dims kvs = some r →
+      nkKVs kvs = true → needKVs r ≤ needKVs kvs ∧ nkKVs r = true ∧ r.map (·.1) = kvs.map (·.1)
+    | [], r, h, _ => by simp [GConfig.reduceKVs] at h; subst h; simp [needKVs, nkKVs]
+    | (k, v) :: rest, r, h, hnk => by
+      simp only [nkKVs, Bool.and_eq_true] at hnk
+      rw [GConfig.reduceKVs] at h
+      cases hx : GConfig.reduceAny dims v with
+      | none => simp [hx] at h
+      | some v' =>
+        cases hr : GConfig.reduceKVs dims rest with
+        | none => simp [hx, hr] at h
+        | some rest' =>
+          simp [hx, hr] at h; subst h
+          have h1 := reduce_pres dims v v' hx hnk.1
+          have h2 := reduceKVs_pres dims rest rest' hr hnk.2
+          simp only [needKVs, nkKVs, h1.2, h2.2.1, Bool.and_self, List.map_cons, h2.2.2, and_true]; omega
+  theorem reduceAt_pres (dims : List Dim) : ∀ (kvs : List (String × Y)) (key : String) (r : Y),
+      GConfig.reduceAt dims kvs key = some r → nkKVs kvs = true → need r ≤ needKVs kvs ∧ NK r = true
+    | [], _, r, h, _ => by simp [GConfig.reduceAt] at h
+    | (k, v) :: rest, key, r, h, hnk => by
+      simp only [nkKVs, Bool.and_eq_true] at hnk
+      rw [GConfig.reduceAt] at h
+      by_cases hk : (k == key) = true
+      · simp only [hk, if_true] at h
+        have := reduce_pres dims v r h hnk.1
+        simp only [needKVs]; exact ⟨by omega, this.2⟩
+      · simp only [hk, if_false] at h
+        have := reduceAt_pres dims rest key r h hnk.2
+        simp only [needKVs]; exact ⟨by omega, this.2⟩
+end
+
+/-- the model of the pipeline: reduce from dimension 0, the result must be a map, then the
+templates; `none` = `FromBytes` returns an error -/
+def pipeline (ts : List (String → String × Bool × Err)) (dims : List Dim) (data : List (String × Y)) :
+    Option (List (String × Y)) :=
+  match GConfig.fromBytes dims (Y.map data) with
+  | none => none
+  | some m => tmplKVs ts m
+
+/-- the answer of the pipeline as the `(data of the *Config, error)` pair of the translated `FromBytes` -/
+def ofOptC : Option (List (String × Y)) → Option (List (String × Y)) × Err
+  | some m => (some m, none)
+  | none => (none, some ())
+
+/-- **tie A**: the translated body of `Builder.FromBytes` (from the call of `reduceAny` to the `data`
+field of the returned `*Config`) is the model's `fromBytes` followed by the templates -/
+theorem go_fromBytes_eq (env : Env) (dims : List Dim) (hE : ∀ d ∈ dims, d.parse "" = none) (fuel : Nat)
+    (data : List (String × Y)) (hn : need (Y.map data) ≤ fuel) (hnk : NK (Y.map data) = true) :
+    Generated.GoGConfigReduce.fromBytes env fuel (dims.map dimOf) data
+      = pure (ofOptC (pipeline env.templates dims data)) := by
+  unfold Generated.GoGConfigReduce.fromBytes pipeline GConfig.fromBytes
+  simp only []
+  rw [go_reduceAny_eq dims hE fuel (Y.map data) hn hnk, pure_bind]
+  cases hr : GConfig.reduceAny dims (Y.map data) with
+  | none => simp [ofOptE, reduce_err1, ofOptC]
+  | some r =>
+    have hp := reduce_pres dims (Y.map data) r hr hnk
+    cases r with
+    | map m =>
+      simp only [ofOptE, asMap]
+      rw [go_parseTemplated_eq env fuel (Y.map m) (by omega) hp.2]
+      simp only [tmplY]
+      cases tmplKVs env.templates m <;> simp [ofOptE, reduce_err1, ofOptC, asMap]
+    | null => simp [ofOptE, asMap, fromBytes_err1, ofOptC]
+    | str _ => simp [ofOptE, asMap, fromBytes_err1, ofOptC]
+    | int _ => simp [ofOptE, asMap, fromBytes_err1, ofOptC]
+    | bool _ => simp [ofOptE, asMap, fromBytes_err1, ofOptC]
+    | list _ => simp [ofOptE, asMap, fromBytes_err1, ofOptC]
+
+/-! ## the property, restated for the translated code -/
+
+mutual
+  theorem wf_nk (dims : List Dim) : ∀ (y : Y), WF dims y = true → NK y = true
+    | .map kvs, h => by
+      simp only [WF, wfKeys, Bool.and_eq_true] at h
+      simp only [NK, Bool.and_eq_true]
+      exact ⟨h.1.1, wf_nkKVs dims kvs h.2⟩
+    | .list xs, h => by
+      simp only [WF] at h
+      simp only [NK]; exact wf_nkList dims xs h
+    | .null, _ => rfl
+    | .str _, _ => rfl
+    | .int _, _ => rfl
+    | .bool _, _ => rfl
+  theorem wf_nkList (dims : List Dim) : ∀ (xs : List Y), wfList dims xs = true → nkList xs = true
+    | [], _ => rfl
+    | x :: xs, h => by
+      simp only [wfList, Bool.and_eq_true] at h
+      simp only [nkList, Bool.and_eq_true]; exact ⟨wf_nk dims x h.1, wf_nkList dims xs h.2⟩
+  theorem wf_nkKVs (dims : List Dim) : ∀ (kvs : List (String × Y)), wfKVs dims kvs = true → nkKVs kvs = true
+    | [], _ => rfl
+    | (_, v) :: rest, h => by
+      simp only [wfKVs, Bool.and_eq_true] at h
+      simp only [nkKVs, Bool.and_eq_true]; exact ⟨wf_nk dims v h.1, wf_nkKVs dims rest h.2⟩
+end
+
+/-- C03 for the translated code: on every well-formed document the translated `FromBytes` pipeline
+delivers the RESOLUTION of the property text (each dimension-keyed map replaced by the entry of the
+selected value, else `default`, else an error) with the templates applied to it - and an error
+exactly when the resolution fails, is not a map, or a template on it fails. -/
+theorem go_fromBytes_spec (env : Env) (dims : List Dim) (hE : ∀ d ∈ dims, d.parse "" = none) (fuel : Nat)
+    (data : List (String × Y)) (hn : need (Y.map data) ≤ fuel) (hwf : WF dims (Y.map data) = true) :
+    Generated.GoGConfigReduce.fromBytes env fuel (dims.map dimOf) data
+      = pure (ofOptC (match resolve dims (Y.map data) with
+          | some (Y.map m) => tmplKVs env.templates m
+          | _ => none)) := by
+  rw [go_fromBytes_eq env dims hE fuel data hn (wf_nk dims _ hwf)]
+  unfold pipeline GConfig.fromBytes
+  rw [GConfig.reduce_eq_resolve dims _ hwf]
+  cases hr : resolve dims (Y.map data) with
+  | none => rfl
+  | some r => cases r <;> rfl
+
+/-- the translated `reduceAny` on a well-formed document = the specification `resolve` -/
+theorem go_reduceAny_spec (dims : List Dim) (hE : ∀ d ∈ dims, d.parse "" = none) (fuel : Nat) (y : Y)
+    (hn : need y ≤ fuel) (hwf : WF dims y = true) :
+    Generated.GoGConfigReduce.reduceAny fuel y (dims.map dimOf) 0 = pure (ofOptE (resolve dims y)) := by
+  rw [go_reduceAny_eq dims hE fuel y hn (wf_nk dims y hwf), GConfig.reduce_eq_resolve dims y hwf]
+
+mutual
+  /-- the string values of a document -/
+  def strsOf : Y → List String
+    | .str s => [s]
+    | .list xs => strsList xs
+    | .map kvs => strsKVs kvs
+    | _ => []
+  def strsList : List Y → List String
+    | [] => []
+    | x :: xs => strsOf x ++ strsList xs
+  def strsKVs : List (String × Y) → List String
+    | [] => []
+    | (_, v) :: rest => strsOf v ++ strsKVs rest
+end
+
+mutual
+  theorem tmplY_congr (ts ts' : List (String → String × Bool × Err)) : ∀ (y : Y),
+      (∀ s ∈ strsOf y, tmplStr ts s = tmplStr ts' s) → tmplY ts y = tmplY ts' y
+    | .str s, h => by simp only [tmplY, h s (by simp [strsOf])]
+    | .list xs, h => by simp only [tmplY, tmplList_congr ts ts' xs (by simpa [strsOf] using h)]
+    | .map kvs, h => by simp only [tmplY, tmplKVs_congr ts ts' kvs (by simpa [strsOf] using h)]
+    | .null, _ => rfl
+    | .int _, _ => rfl
+    | .bool _, _ => rfl
+  theorem tmplList_congr (ts ts' : List (String → String × Bool × Err)) : ∀ (xs : List Y),
+      (∀ s ∈ strsList xs, tmplStr ts s = tmplStr ts' s) → tmplList ts xs = tmplList ts' xs
+    | [], _ => rfl
+    | x :: xs, h => by
+      simp only [strsList, List.mem_append] at h
+      simp only [tmplList, tmplY_congr ts ts' x (fun s hs => h s (Or.inl hs)),
+        tmplList_congr ts ts' xs (fun s hs => h s (Or.inr hs))]
+  theorem tmplKVs_congr (ts ts' : List (String → String × Bool × Err)) : ∀ (kvs : List (String × Y)),
+      (∀ s ∈ strsKVs kvs, tmplStr ts s = tmplStr ts' s) → tmplKVs ts kvs = tmplKVs ts' kvs
+    | [], _ => rfl
+    | (k, v) :: rest, h => by
+      simp only [strsKVs, List.mem_append] at h
+      simp only [tmplKVs, tmplY_congr ts ts' v (fun s hs => h s (Or.inl hs)),
+        tmplKVs_congr ts ts' rest (fun s hs => h s (Or.inr hs))]
+end
+
+/-- C16, "only on selected branches", for the translated code: two template environments that
+treat the strings of the RESOLVED document alike (whatever they do to strings on branches the
+dimensions do not select) make the translated `FromBytes` return the same thing - in particular a
+template that fails on an unselected branch cannot fail loading. -/
+theorem go_fromBytes_only_selected (env env' : Env) (dims : List Dim) (hE : ∀ d ∈ dims, d.parse "" = none)
+    (fuel : Nat) (data : List (String × Y)) (hn : need (Y.map data) ≤ fuel) (hwf : WF dims (Y.map data) = true)
+    (hsame : ∀ m, resolve dims (Y.map data) = some (Y.map m) →
+      ∀ s ∈ strsKVs m, tmplStr env.templates s = tmplStr env'.templates s) :
+    Generated.GoGConfigReduce.fromBytes env fuel (dims.map dimOf) data
+      = Generated.GoGConfigReduce.fromBytes env' fuel (dims.map dimOf) data := by
+  rw [go_fromBytes_spec env dims hE fuel data hn hwf, go_fromBytes_spec env' dims hE fuel data hn hwf]
+  cases hr : resolve dims (Y.map data) with
+  | none => rfl
+  | some r =>
+    cases r with
+    | map m => simp only [tmplKVs_congr _ _ m (hsame m hr)]
+    | _ => rfl
+
+/-- non-vacuity: a two-dimension document (a switch of the second dimension around a switch of the
+first) is well-formed, no dimension parses the empty string, fuel 7 is enough, and the translated
+pipeline run on it selects `D2b`, then `D1a` -/
+def exDims : List Dim := [{ names := ["D1a", "D1b"], sel := 0 }, { names := ["D2a", "D2b"], sel := 1 }]
+def exData : List (String × Y) :=
+  [("svc", Y.map [("D2a", Y.str "a"), ("D2b", Y.map [("D1a", Y.str "x"), ("default", Y.str "y")])])]
+example : WF exDims (Y.map exData) = true ∧ need (Y.map exData) ≤ 7 ∧ exDims.all (fun d => (d.parse "").isNone) = true := by
+  decide +kernel
+example : (match Generated.GoGConfigReduce.fromBytes ⟨[]⟩ 7 (exDims.map dimOf) exData with
+    | .ok (some [("svc", Y.str s)], none) => s == "x"
+    | _ => false) = true := by decide +kernel
 
 end C03Reduce
